@@ -257,6 +257,9 @@ func fillRequired(r *hx.Rng, m protoreflect.Message, depth int) {
 		}
 		switch {
 		case fd.IsMap():
+			if fd.MapValue().Kind() != protoreflect.MessageKind {
+				return true
+			}
 			v.Map().Range(func(_ protoreflect.MapKey, mv protoreflect.Value) bool {
 				fillRequired(r, mv.Message(), depth-1)
 				return true
